@@ -5,7 +5,8 @@ Transition system on the real `gama-local` executable: state = an input file,
 transition = "adjust + export".  For every member of a network family (every
 observation / cluster kind, cov-mat band 0/1/full, every attribute, statuses,
 parameters, removed observations, every order of xy / z / xyz points in a
-<coordinates> cluster) x 16 axes/angle frames x algorithms x
+<coordinates> cluster, every order of angular / linear observations in an <obs>
+cluster with a cov-mat x gon / degree input and output) x 16 axes/angle frames x algorithms x
 approximate-coordinate modes the chain
     F0 --adjust+export--> F1 --adjust+export--> F2 --adjust+export--> F3
 is run and every state is adjusted (--xml, --text).  Oracle: see RULE.
@@ -20,7 +21,10 @@ RULE = ("every member of the C13 network family (all observation and cluster kin
         "extern/dist/orientation/obs-level from_dh, sexagesimal input and output, fixed/adj/constrained statuses, parameters, removed observations, "
         "omitted approximations; <coordinates> clusters made of every sequence of 2 and 3 <point> elements over the observed components {xy, z, xyz} "
         "with every pattern of distinct/repeated point ids (PQ PP; PQR PPQ PQP PQQ PPP) and a diagonal or band-1 cov-mat inside a determined 3-D "
-        "network: 153 sequences x 2 = 306 members coords.<components>.<ids>.cov<band>) x axes-xy/angles frames x algorithms x {exact, perturbed} approximations: chain F0 -> F1 -> F2 -> F3 by "
+        "network: 153 sequences x 2 = 306 members coords.<components>.<ids>.cov<band>; <obs> clusters with a cov-mat made of every sequence of 2 and 3 "
+        "observations over {direction, angle, z-angle | distance, s-distance} (every order of angular and linear rows; sets with exactly one "
+        "direction left out, gama removes it) x band 0..dim-1 x values and matrix given in gon/cc or degrees/arc seconds x output in gon or "
+        "degrees: 265 x 4 = 1060 members obsc.<kinds>.cov<band>.<in>-<out>) x axes-xy/angles frames x algorithms x {exact, perturbed} approximations: chain F0 -> F1 -> F2 -> F3 by "
         "'gama-local Fk --export Fk+1'; oracle per step: export written and accepted (exit 0, no error document); independent reader (xml.etree) of "
         "Fk and Fk+1 gives the same points/status, observations (type, ends, value, stdev/cov-mat, heights, extern, dist) and parameters; "
         "approximate coordinates present for every adjusted point; adjusting Fk (k=1,2,3) gives the adjusted coordinates, residuals, [pvv], dof, "
@@ -35,7 +39,7 @@ def jobs(tier, exe, tmp):
     i = 0
     for geom in ((0, 1) if tier == "thorough" else (0,)):
         fam = M.family(geom=geom)
-        ci = -1
+        ci = oi = -1
         for mi, mem in enumerate(fam):
             frames = [f for f in frames_all if mem.axes is None or f[0] in mem.axes]
             fr = frames if mem.planar else [frames[0], frames[9]]
@@ -49,6 +53,14 @@ def jobs(tier, exe, tmp):
                     # quick: one consistent and one inconsistent frame (axes rotate), one algorithm
                     a1, a2 = ci % 8, (ci + 5) % 8
                     fr, al = [frames[2 * a1 + (a1 >= 4)], frames[2 * a2 + (a2 < 4)]], [algs[ci % 4]]
+            elif mem.name.startswith("obsc."):
+                # the <obs> cov-mat order members (1060): what they vary is the export of one cluster's matrix and
+                # values; frames and algorithms rotate with the member index
+                oi += 1
+                if tier == "thorough":
+                    fr, al = (frames[oi % 4::4] if geom == 0 else frames[(oi + 1) % 8::8]), [algs[oi % 4]]
+                else:
+                    fr, al = [frames[(5 * oi) % 16]], [algs[oi % 4]]
             elif tier == "thorough":
                 al = algs if geom == 0 else [algs[mi % 2], algs[2 + mi % 2]]
             else:
@@ -59,7 +71,7 @@ def jobs(tier, exe, tmp):
             for fi, (ax, an) in enumerate(fr):
                 for alg in al:
                     for ap in (("exact",) if mem.heights else ("exact", "perturbed")):
-                        if tier != "thorough" and ap == "perturbed" and (fi + mi) % 4 and mem.name not in ("2d", "3d"):
+                        if tier != "thorough" and ap == "perturbed" and ((fi + mi) % 4 or mem.name.startswith("obsc.")) and mem.name not in ("2d", "3d"):
                             continue
                         out.append({"i": i, "geom": geom, "member": mem.name, "axes": ax, "angles": an, "alg": alg, "approx": ap,
                                     "exe": exe, "tmp": tmp})
@@ -153,7 +165,7 @@ def main():
     ck.counters["members"] = len(members)
     ck.finish(RULE + "; non-trivial = every state (each file holds a full network)",
               assumptions=[
-                  "networks of <= 7 points (the coords.* members: 3 fixed + 3 adjusted points, all of them in 2 frames per member in the quick tier, 16 / 8 frames for geometry 0 / 1 with 2 / 1 algorithms in the thorough tier), two geometries (200 m square at the origin; 230 m figure at x~1100, y~5100, z~260), sight lengths 60-280 m, consistent observations + deterministic noise of <= 0.7 sigma; other reals and larger networks are not covered",
+                  "networks of <= 7 points (the coords.* members: 3 fixed + 3 adjusted points, all of them in 2 frames per member in the quick tier, 16 / 8 frames for geometry 0 / 1 with 2 / 1 algorithms in the thorough tier; the obsc.* members in 1 frame per member with exact approximations in the quick tier, 4 / 2 frames for geometry 0 / 1 in the thorough tier, frame and algorithm rotating with the member index), two geometries (200 m square at the origin; 230 m figure at x~1100, y~5100, z~260), sight lengths 60-280 m, consistent observations + deterministic noise of <= 0.7 sigma; other reals and larger networks are not covered",
                   "instrument heights that enter the reductions are combined with exact approximate coordinates only (dh-reduction convergence is C06's subject)",
                   "comparisons to the printed precision of the export: parameters 8 digits, sexagesimal values 1e-4 arc second, everything else 16-17 digits; results: 1e-6 m / 1e-6 gon / relative 1e-5",
                   "the orientation attribute of <obs> is an approximate unknown, not survey data: its preservation is demanded only through 'no further iteration'"])
